@@ -22,6 +22,7 @@ import (
 	"fmt"
 	"io"
 	"math/big"
+	"os"
 	"sync"
 	"time"
 
@@ -220,10 +221,21 @@ const (
 	c09TypPrecert
 	c09TypPoisonNonCritical // poison extension, value NULL, not critical
 	c09TypPoisonBadValue    // critical poison extension whose value is not NULL
-	c09NumTyp
+	c09TypPoisonTwice       // two well-formed (critical, NULL) poison extensions
 )
 
-var c09TypNames = [...]string{"final", "precert", "poison-noncritical", "poison-badvalue"}
+var c09TypNames = [...]string{"final", "precert", "poison-noncritical", "poison-badvalue", "poison-twice"}
+
+// c09MaxTyp is the last certificate type the main generator draws. The
+// duplicated poison extension currently makes sunlight answer 500 (reported
+// finding, reproduced by TestVerifC09PoisonTwice); it joins the main generator
+// when VERIF_C09_POISON_TWICE=1.
+func c09MaxTyp() int {
+	if os.Getenv("VERIF_C09_POISON_TWICE") == "1" {
+		return c09TypPoisonTwice
+	}
+	return c09TypPoisonBadValue
+}
 
 func c09TypMalformed(t int) bool { return t >= c09TypPoisonNonCritical }
 
@@ -276,6 +288,9 @@ func c09Leaf(s c09LeafSpec) []byte {
 		tmpl.ExtraExtensions = []pkix.Extension{{Id: c09OIDPoison, Critical: false, Value: []byte{5, 0}}}
 	case c09TypPoisonBadValue:
 		tmpl.ExtraExtensions = []pkix.Extension{{Id: c09OIDPoison, Critical: true, Value: []byte{4, 0}}}
+	case c09TypPoisonTwice:
+		tmpl.ExtraExtensions = []pkix.Extension{{Id: c09OIDPoison, Critical: true, Value: []byte{5, 0}},
+			{Id: c09OIDPoison, Critical: true, Value: []byte{5, 0}}}
 	}
 	der, err := x509.CreateCertificate(nil, tmpl, s.issuer.cert, &key.PublicKey, c09Signer{s.issuer.key})
 	if err != nil {
